@@ -73,6 +73,22 @@ def check_cxx(inp):
         index[len(lines)] = (i, "rendering %r is rejected by g++" % g)
         lines.append('static_assert(std::is_same<decltype(o%d::%s), decltype(r%d::%s)>::value, "D%d");' % (i, name, i, name, i))
         index[len(lines)] = (i, "g++ derives a different type from the rendering %r" % g)
+        # the type shroud RECORDED (typemap), as shown by the C++ rendering built from the typemaps
+        try:
+            def has_tmpl(x):
+                return bool(x.template_arguments) or any(has_tmpl(p) for p in (x.params or []))
+            if not has_tmpl(a) and "(*" not in g and "( *" not in g:
+                if a.params is None:
+                    t = a.gen_arg_as_cxx()
+                else:
+                    t = "%s(%s)" % (a.gen_arg_as_cxx(name=name, params=None), ", ".join(
+                        p.gen_arg_as_cxx() if p.name else p.gen_arg_as_cxx(name="p%d" % k) for k, p in enumerate(a.params)))
+                lines.append("namespace t%d { %s%s; }" % (i, ext, strip_attrs(t)))
+                index[len(lines)] = (i, "typemap rendering %r is rejected by g++" % t)
+                lines.append('static_assert(std::is_same<decltype(o%d::%s), decltype(t%d::%s)>::value, "T%d");' % (i, name, i, name, i))
+                index[len(lines)] = (i, "the type recorded for the declaration (typemap rendering %r) is not the declared type" % t)
+        except (RuntimeError, NotImplementedError, AttributeError):
+            pass
         n += 1
     if not n:
         return None
@@ -101,10 +117,79 @@ def check_cxx(inp):
         shutil.rmtree(d, ignore_errors=True)
 
 
+def check_scoped(inp):
+    """declarations parsed INSIDE a namespace whose enclosing scopes declare the same class names: the class each name
+    resolves to (as shown by the qualified C++ rendering of the parameters) is the one g++ resolves it to"""
+    import os, re, subprocess, tempfile, shutil
+    from shroud import declast, typemap, ast
+    typemap.initialize()
+    lib = ast.LibraryNode()
+    lib.add_declaration("class Data")
+    lib.add_declaration("class Top")
+    outer = lib.add_namespace("outer")
+    outer.add_declaration("class Data")
+    inner = outer.add_namespace("inner")
+    inner.add_declaration("class Data")
+    inner.add_declaration("class Leaf")
+    scopes = {"": lib, "outer": outer, "outer::inner": inner}
+    lines = ["#include <string>", "#include <vector>", "#include <type_traits>", "class Data; class Top;",
+             "namespace outer { class Data; namespace inner { class Data; class Leaf; } }"]
+    index = {}
+    n = 0
+    for i, (scope, text) in enumerate(inp["items"]):
+        try:
+            a = declast.check_decl(text, scopes[scope])
+            if a.params is None:
+                continue
+            ret = a.gen_arg_as_cxx(name="r%d" % i, params=None)
+            rend = "%s(%s)" % (ret, ", ".join(p.gen_arg_as_cxx() for p in a.params))
+        except (RuntimeError, NotImplementedError):
+            continue
+        except Exception as ex:
+            return "rendering raised %s: %s for %r in scope %r" % (type(ex).__name__, str(ex)[:80], text, scope)
+        orig = re.sub(r'\b%s\s*\(' % re.escape(a.name), "o%d(" % i, strip_attrs(text), 1)
+        opener = "".join("namespace %s { " % s_ for s_ in scope.split("::")) if scope else ""
+        closer = "}" * len(scope.split("::")) if scope else ""
+        lines.append("%s%s; %s" % (opener, orig, closer))
+        index[len(lines)] = (i, "orig")
+        lines.append("%s;" % rend)
+        index[len(lines)] = (i, "rendering %r is rejected by g++" % rend)
+        q = (scope + "::" if scope else "") + "o%d" % i
+        lines.append('static_assert(std::is_same<decltype(%s), decltype(r%d)>::value, "S%d");' % (q, i, i))
+        index[len(lines)] = (i, "in scope %r the names resolve differently from g++: shroud records %r" % (scope, rend))
+        n += 1
+    if not n:
+        return None
+    d = tempfile.mkdtemp(prefix="mrs_")
+    try:
+        open(os.path.join(d, "t.cpp"), "w").write("\n".join(lines) + "\n")
+        r = subprocess.run(["g++", "-std=c++11", "-fsyntax-only", "-fmax-errors=0", "t.cpp"], cwd=d, stdout=subprocess.PIPE,
+                           stderr=subprocess.STDOUT, universal_newlines=True, timeout=300)
+        if r.returncode == 0:
+            return None
+        bad_orig, found = set(), []
+        for m in re.finditer(r't\.cpp:(\d+):\d+: error: (.*)', r.stdout):
+            ln = int(m.group(1))
+            if ln in index:
+                i, what = index[ln]
+                if what == "orig":
+                    bad_orig.add(i)
+                else:
+                    found.append((i, what, m.group(2)))
+        for i, what, msg in found:
+            if i not in bad_orig:
+                return "%s  [declaration %r in scope %r]" % (what, inp["items"][i][1], inp["items"][i][0])
+        return None
+    finally:
+        shutil.rmtree(d, ignore_errors=True)
+
+
 def check(inp):
     kind = inp.get("kind", "decl")
     if kind == "cxx":
         return check_cxx(inp)
+    if kind == "scoped":
+        return check_scoped(inp)
     if kind == "expr":
         from shroud import declast, todict
         e = inp["text"]
@@ -164,6 +249,11 @@ def check(inp):
 
 
 SPEC = ["int", "const int", "unsigned int", "long long", "double", "char", "const char", "std::string", "const std::string", "void", "bool"]
+# specifier permutations of the integer types (a compiler accepts every order; signed char is not char)
+INTSPEC = ["signed char", "unsigned char", "char signed", "signed int", "signed", "unsigned", "short", "short int", "int short",
+           "unsigned short", "long", "long int", "int long", "unsigned long", "long unsigned int", "long long int", "long signed int",
+           "unsigned long long", "long long unsigned", "signed long long", "size_t", "int32_t", "uint8_t", "float", "long double",
+           "signed double", "unsigned float", "short char"]
 PTRS = ["", "*", "&", "**", "*&", "* const", "* const *", "const *"]
 ATTRS = ["", " +intent(in)", " +rank(1)", " +dimension(n,m)", " +value", " +len=30", " +name(other)", " +deref(pointer)"]
 
@@ -216,8 +306,23 @@ def cxx_family():
     return out
 
 
+def scoped_family():
+    names = ["Data", "::Data", "outer::Data", "::outer::Data", "inner::Data", "outer::inner::Data", "::outer::inner::Data", "Top", "::Top",
+             "Leaf", "inner::Leaf", "std::string", "::std::string"]
+    items = []
+    for scope in ("", "outer", "outer::inner"):
+        for nm in names:
+            items.append([scope, "void f(%s *d)" % nm])
+            items.append([scope, "%s *f()" % nm])
+            items.append([scope, "void f(const %s &d, int n)" % nm])
+    return items
+
+
 def candidates(seed, around=None):
-    fam = cxx_family()
+    fam = cxx_family() + ["%s a" % s for s in INTSPEC] + ["%s *f(%s a, const %s *b)" % (s, s, s) for s in INTSPEC]
+    sc = scoped_family()
+    for i in range(0, len(sc), 45):
+        yield {"kind": "scoped", "items": sc[i:i + 45]}
     for i in range(0, len(fam), 60):
         yield {"kind": "cxx", "texts": fam[i:i + 60]}
     for e in expr_family():
